@@ -11,7 +11,10 @@ use crate::{
     procedures::ExecutionErrorPayload,
     value::Value,
     vm::{
-        runtime::cao_lang_object::{CaoLangObjectBody, ObjectGcGuard},
+        runtime::{
+            cao_lang_object::{CaoLangObjectBody, ObjectGcGuard},
+            cao_lang_table::CaoLangTable,
+        },
         Vm,
     },
 };
@@ -164,6 +167,23 @@ pub fn sorted() -> Function {
         )))
 }
 
+/// The rows of a table as they are now
+fn copy_rows(t: &CaoLangTable) -> Vec<(Value, Value)> {
+    t.iter().map(|(k, v)| (*k, *v)).collect()
+}
+
+/// Keeps the objects of copied rows alive while script code, which may remove them from their
+/// table, runs
+fn guard_rows(rows: &[(Value, Value)]) -> Vec<ObjectGcGuard> {
+    rows.iter()
+        .flat_map(|(k, v)| [*k, *v])
+        .filter_map(|v| match v {
+            Value::Object(o) => Some(ObjectGcGuard::new(o)),
+            _ => None,
+        })
+        .collect()
+}
+
 pub fn native_minmax<T, const LESS: bool>(
     vm: &mut Vm<T>,
     iterable: Value,
@@ -174,11 +194,14 @@ pub fn native_minmax<T, const LESS: bool>(
         Value::Object(o) => unsafe {
             match &o.as_ref().body {
                 CaoLangObjectBody::Table(t) => {
-                    let Some(first) = t.iter().next() else {
+                    // the key function may change the table: work on a copy of its rows
+                    let rows = copy_rows(t);
+                    let _row_guards = guard_rows(&rows);
+                    let Some(first) = rows.first() else {
                         return Ok(Value::Nil);
                     };
-                    vm.stack_push(*first.1)?;
-                    vm.stack_push(*first.0)?;
+                    vm.stack_push(first.1)?;
+                    vm.stack_push(first.0)?;
                     let mut max_key = vm.run_function(key_fn)?;
                     // a key may be a new object that only this function refers to: keep it alive while
                     // the key function runs again
@@ -188,7 +211,7 @@ pub fn native_minmax<T, const LESS: bool>(
                     };
                     let mut i = 0;
 
-                    for (j, (k, value)) in t.iter().enumerate().skip(1) {
+                    for (j, (k, value)) in rows.iter().enumerate().skip(1) {
                         vm.stack_push(*value)?;
                         vm.stack_push(*k)?;
                         let key = vm.run_function(key_fn)?;
@@ -202,8 +225,7 @@ pub fn native_minmax<T, const LESS: bool>(
                             _max_key_guard = key_guard;
                         }
                     }
-                    let k = t.nth_key(i);
-                    let v = *t.get(&k).unwrap();
+                    let (k, v) = rows[i];
                     let mut result = vm.init_table()?;
                     let t = result.0.as_mut().as_table_mut().unwrap();
                     t.insert(vm.init_string("key")?, k)?;
@@ -233,11 +255,14 @@ pub fn native_sorted<T>(
                 CaoLangObjectBody::Table(t) => {
                     // TODO:
                     // sort in place?
-                    let mut result = Vec::with_capacity(t.len());
+                    // the key function may change the table: work on a copy of its rows
+                    let rows = copy_rows(t);
+                    let _row_guards = guard_rows(&rows);
+                    let mut result = Vec::with_capacity(rows.len());
                     // the keys may be new objects that only `result` refers to: keep them alive while the
                     // key function runs again
-                    let mut key_guards = Vec::with_capacity(t.len());
-                    for (k, v) in t.iter() {
+                    let mut key_guards = Vec::with_capacity(rows.len());
+                    for (k, v) in rows.iter() {
                         vm.stack_push(*v)?;
                         vm.stack_push(*k)?;
                         let key = vm.run_function(key_fn)?;
